@@ -436,6 +436,14 @@ func (w *Writer) Write(v interface{}) *Writer {
 		return w
 	}
 
+	// 基础类型的 nil 指针无法解引用，统一返回错误（*[]byte 的 nil 仍按空字节串写入）
+	if rv := reflect.ValueOf(v); rv.Kind() == reflect.Ptr && rv.IsNil() {
+		if _, ok := v.(*[]byte); !ok {
+			w.err = fmt.Errorf("cannot write nil pointer: %T", v)
+			return w
+		}
+	}
+
 	switch val := v.(type) {
 	case *byte:
 		w.writeByte(*val)
@@ -544,8 +552,18 @@ func (w *Writer) writeReflect(v interface{}) error {
 		return nil
 
 	default:
-		w.Write(v)
-		return nil
+		// 仅当解引用后的值是 Write 直接支持的基础类型时才回到 Write，
+		// 否则 Write 与 writeReflect 会互相调用直至栈溢出
+		if !rv.IsValid() {
+			return fmt.Errorf("unsupported type for writing: %T", v)
+		}
+		switch val := rv.Interface().(type) {
+		case byte, int8, int16, uint16, uint32, int32, uint64, int64, float32, float64, bool, string:
+			w.Write(val)
+			return w.err
+		default:
+			return fmt.Errorf("unsupported type for writing: %T", v)
+		}
 	}
 }
 
